@@ -100,10 +100,18 @@ def notBoth (y : X) : Except PErr Bool := do
     if (← inB y) then pure false else pure true
   else pure true
 
+/-- the loop test `not (a.is_in(y) and b.is_in(y) and a.is_in(x))` (short-circuiting). -/
+def dykTest (y x : X) : Except PErr Bool := do
+  if (← notBoth inA inB y) then pure true
+  else if (← inA x) then pure false else pure true
+
 /-- the `while` loop of `dykstra_project`, entered before an iteration with counter `c`.
 One iteration is `y = a.project(x+p); p = x+p-y; x = b.project(y+q); q = y+q-x; c += 1`; the loop
-continues while `c < maxiter and not (a.is_in(y) and b.is_in(y))` (the first iteration is
-unconditional: `isinstance(y, int)`).  After the loop `c == maxiter` raises, otherwise `x` is
+continues while `c < maxiter and not (a.is_in(y) and b.is_in(y) and a.is_in(x))`: the a-side
+iterate `y` must be (tolerance-)in both sets — which is where the iteration has reached a fixed
+point — and the b-side iterate `x`, the value that is returned, must be (tolerance-)in `a` too
+(it is in `b` by construction).  The first iteration is unconditional (`isinstance(y, int)`
+short-circuits the `or`).  After the loop `c == maxiter` raises, otherwise `x` is
 returned.  `fuel` only makes the recursion structural: `maxiter + 1` is always enough. -/
 def dykLoop (M : Nat) : Nat → Nat → X → X → X → Except PErr X
   | 0, _, _, _, _ => throw .maxiter
@@ -113,7 +121,7 @@ def dykLoop (M : Nat) : Nat → Nat → X → X → X → Except PErr X
     let x' ← Pb (add y q)
     let q' := sub (add y q) x'
     let c' := c + 1
-    let cont ← (if c' < M then notBoth inA inB y else pure false)
+    let cont ← (if c' < M then dykTest inA inB y x' else pure false)
     if cont then dykLoop M fuel c' x' p' q'
     else if c' = M then throw .maxiter
     else pure x'
